@@ -65,14 +65,29 @@ func (p printArgs) window(ver string) (View, *Source, string) {
 }
 
 func opts1(p printArgs, extra ...v1.Option) []v1.Option {
-	return append([]v1.Option{v1.DigitsPerRow(p.R), v1.DigitsPerColumn(p.C), v1.ShowCount(p.show), v1.MissingDigit(p.missing)}, extra...)
+	o := []v1.Option{v1.DigitsPerRow(p.R), v1.DigitsPerColumn(p.C), v1.ShowCount(p.show), v1.MissingDigit(p.missing)}
+	if (p.R+p.C)%2 != 0 {
+		// the layout is determined by the option values, not by the order in which they are given
+		o = []v1.Option{v1.MissingDigit(p.missing), v1.DigitsPerColumn(p.C), v1.ShowCount(p.show), v1.DigitsPerRow(p.R)}
+	}
+	return append(o, extra...)
 }
 func opts2(p printArgs, extra ...v2.Option) []v2.Option {
-	return append([]v2.Option{v2.DigitsPerRow(p.R), v2.DigitsPerColumn(p.C), v2.ShowCount(p.show), v2.MissingDigit(p.missing)}, extra...)
+	o := []v2.Option{v2.DigitsPerRow(p.R), v2.DigitsPerColumn(p.C), v2.ShowCount(p.show), v2.MissingDigit(p.missing)}
+	if (p.R+p.C)%2 != 0 {
+		// the layout is determined by the option values, not by the order in which they are given
+		o = []v2.Option{v2.MissingDigit(p.missing), v2.DigitsPerColumn(p.C), v2.ShowCount(p.show), v2.DigitsPerRow(p.R)}
+	}
+	return append(o, extra...)
 }
 func opts3(p printArgs, extra ...v3.Option) []v3.Option {
-	return append([]v3.Option{v3.DigitsPerRow(p.R), v3.DigitsPerColumn(p.C), v3.ShowCount(p.show), v3.MissingDigit(p.missing),
-		v3.LeadingDecimal(p.lead), v3.TrailingLF(p.trail)}, extra...)
+	o := []v3.Option{v3.DigitsPerRow(p.R), v3.DigitsPerColumn(p.C), v3.ShowCount(p.show), v3.MissingDigit(p.missing),
+		v3.LeadingDecimal(p.lead), v3.TrailingLF(p.trail)}
+	if (p.R+p.C)%2 != 0 {
+		o = []v3.Option{v3.TrailingLF(p.trail), v3.MissingDigit(p.missing), v3.DigitsPerColumn(p.C), v3.LeadingDecimal(p.lead),
+			v3.ShowCount(p.show), v3.DigitsPerRow(p.R)}
+	}
+	return append(o, extra...)
 }
 
 // guardOpts hands the options over as a window of a longer caller-owned slice (spare capacity of two nil entries)
@@ -286,7 +301,7 @@ func genPrintCase(r *Rng, ver string, thorough bool) toks {
 	t.i(we)
 	// options
 	R := r.Pick([]int{-1, 0, 1, 2, 3, 7, 10, 10, 11, 20, 50, 50})
-	C := r.Pick([]int{-1, 0, 1, 3, 5, 5, 10, R, R + 1})
+	C := r.Pick([]int{-1, 0, 1, 3, 5, 5, 10, R, R + 1, 50, 60, 75})
 	// positions: a few ranges: gaps inside a row, across rows, exactly one row, starting mid-row, far from 0
 	nr := r.Pick([]int{0, 1, 1, 2, 2, 3, 4})
 	var rng [][2]int
